@@ -726,18 +726,18 @@ func (s *Store[K, V]) sinkWrite(item WriteBufItem[K, V]) {
 }
 
 func (s *Store[K, V]) drainWrite() {
-	var wait bool
+	var waiters []chan struct{}
 	for _, item := range s.writeBuffer {
 		if item.code == WAIT {
-			wait = true
+			waiters = append(waiters, item.done)
 			continue
 		}
 		s.sinkWrite(item)
 	}
 
 	s.writeBuffer = s.writeBuffer[:0]
-	if wait {
-		s.waitChan <- true
+	for _, done := range waiters {
+		close(done)
 	}
 }
 
@@ -956,8 +956,16 @@ func (s *Store[K, V]) processSecondary() {
 
 // Wait blocks until the write channel is drained.
 func (s *Store[K, V]) Wait() {
-	s.writeChan <- WriteBufItem[K, V]{code: WAIT}
-	<-s.waitChan
+	done := make(chan struct{})
+	select {
+	case s.writeChan <- WriteBufItem[K, V]{code: WAIT, done: done}:
+	case <-s.ctx.Done():
+		return
+	}
+	select {
+	case <-done:
+	case <-s.ctx.Done():
+	}
 }
 
 func (s *Store[K, V]) Recover(version uint64, reader io.Reader) error {
